@@ -1,6 +1,6 @@
 //! C08 - unregistered users are indistinguishable from registered ones.
-//! LTS: histories over {FakeAttempt(cid in 3 incl. empty, request in 2), RealLogin(A)} on one server tape, depth 4 (quick) /
-//! 5 (thorough), x 2 identity/context settings.  Invariant in every state, for the newest fake attempt:
+//! LTS: histories over {FakeAttempt(cid in 3 incl. empty, request in 2), RealLogin(A)} on one server tape, depth 2-3 (quick) /
+//! 3-4 (thorough), x 2 identity/context settings.  Invariant in every state, for the newest fake attempt:
 //! (1) same length as a real response, decodes; (2) its evaluation element equals the one produced for the same
 //! (seed, cid, request) with a record, at registration, and by the reference model; (3) against every earlier
 //! attempt with the same (cid, request): masking nonce, masked response, server nonce, server key share and MAC all
@@ -266,6 +266,7 @@ pub fn run(tier: Tier, seed: u64) -> i32 {
     }
     let depth_of = |api: &Api| {
         let slow = api.name().contains("P521") || api.name().contains("P384");
+        // 7 actions per state: 7^d histories
         match (tier.thorough(), slow) {
             (false, true) => 3,
             (false, false) => 4,
@@ -286,6 +287,44 @@ pub fn run(tier: Tier, seed: u64) -> i32 {
                     let b = api.slogin_start(&mut Tape::seeded(seed, "c08/x"), &Blob::n(&w.setup), Some(&Blob::n(&w.file)), &Blob::n(&rq.0), cid, None, None, None).map(|r| r.0[..elem.len()].to_vec());
                     if a.as_ref().ok() != Some(&m) || b.as_ref().ok() != Some(&m) {
                         cx.violate_case("evaluation/paths-differ", "registration start / login start with a record do not evaluate like the reference model".into(), json!({"request": ri}));
+                    }
+                }
+            }
+            // crafted requests: the server must treat a request the same way whether or not a record exists (same
+            // outcome class: a response of the same length, or the same error) - otherwise the reaction to a crafted
+            // request tells registered from unregistered identifiers
+            {
+                let sp = api.spec;
+                let lay1 = sp.layout(Kind::CredReq);
+                let epk = lay1[2].clone();
+                let cpk_real = sp.field(Kind::File, "client_pk").of(&w.file).to_vec();
+                let mut crafted: Vec<(&str, Vec<u8>)> = vec![("honest", w.reqs[0].0.clone())];
+                for (nm, val) in [("key share := registered client's static public key", cpk_real.clone()), ("key share := server static public key", w.spk.clone()), ("key share := the other request's key share", epk.of(&w.reqs[1].0).to_vec())] {
+                    let mut m = w.reqs[0].0.clone();
+                    m[epk.range()].copy_from_slice(&val);
+                    crafted.push((nm, m));
+                }
+                let mut m = w.reqs[0].0.clone();
+                let nf = lay1[1].clone();
+                for b in m[nf.range()].iter_mut() {
+                    *b = 0;
+                }
+                crafted.push(("client nonce := zeros", m));
+                for (nm, rq) in &crafted {
+                    for cid in CIDS.iter().chain([&w.p.cid[..]].iter()) {
+                        cx.begin_case(json!({"crafted_request": nm, "cid": String::from_utf8_lossy(cid)}));
+                        cx.edges += 2;
+                        let class = |r: Result<(Vec<u8>, Vec<u8>), E>| match r {
+                            Ok((k2, _)) => format!("Ok(len {})", k2.len()),
+                            Err(e) => format!("Err({:?})", e),
+                        };
+                        let with = class(api.slogin_start(&mut Tape::seeded(seed, "c08/crafted"), &Blob::n(&w.setup), Some(&Blob::n(&w.file)), &Blob::n(rq), cid, o(&w.p.ctx), o(&w.p.idu), o(&w.p.ids)));
+                        let without = class(api.slogin_start(&mut Tape::seeded(seed, "c08/crafted"), &Blob::n(&w.setup), None, &Blob::n(rq), cid, o(&w.p.ctx), o(&w.p.idu), o(&w.p.ids)));
+                        if with != without {
+                            cx.violate(&format!("registration-oracle/{}", nm), format!("the server reacts differently to a crafted request ({}) depending on whether a password file exists: {} vs {}", nm, with, without));
+                        } else {
+                            cx.outcome("crafted-request-same-reaction");
+                        }
                     }
                 }
             }
@@ -312,7 +351,7 @@ pub fn run(tier: Tier, seed: u64) -> i32 {
         tier,
         seed,
         rule: "explicit-state BFS over all histories of {4 fake attempts (2 credential ids x 2 requests), real login} up to the depth bound on one server tape, 2 settings x 20 suites; the 5-part invariant is evaluated on the newest fake attempt of every state against all earlier attempts of that history".into(),
-        bounds: json!({"suites": 20, "settings": 2, "depth": "3-4 (quick) / 4-5 (thorough) by suite speed", "models": models.into_inner().unwrap()}),
+        bounds: json!({"suites": 20, "settings": 2, "depth": "3-4 (quick) / 4-5 (thorough) by suite speed, 7 actions per state", "models": models.into_inner().unwrap()}),
         assumptions: vec!["'unpredictable' is decided structurally: each varying field is (derived from) a fresh full-length tape draw and never repeats; no statistical claim".into()],
         exhaustive: true,
         crosscheck: cross,
